@@ -5,6 +5,8 @@ package vx
 import (
 	"database/sql"
 
+	"github.com/gin-gonic/gin"
+
 	"github.com/resonatehq/gocoro"
 	"github.com/resonatehq/resonate/internal/kernel/t_aio"
 )
@@ -74,6 +76,11 @@ func StrPtrEq(a, b *string) bool               { panic("intrinsic") }
 func Int64PtrEq(a, b *int64) bool              { panic("intrinsic") }
 func HasPrefix(s, p string) bool               { panic("intrinsic") }
 func GrpcCode(err error) int                   { panic("intrinsic") }
+// GinContext: wildcards are the catch-all route parameters (*name), which gin delivers with a leading "/".
+func GinContext(method string, wildcards ...string) *gin.Context { panic("intrinsic") }
+func HttpReplies() int                         { panic("intrinsic") }
+func HttpCode(i int) int                       { panic("intrinsic") }
+func HttpBody(i int) any                       { panic("intrinsic") }
 func ChanClosed(ch any) bool                   { panic("intrinsic") }
 func ChanSends(ch any) int                     { panic("intrinsic") }
 func SchemaDiff() string                       { panic("intrinsic") }
